@@ -39,6 +39,9 @@ type Writer struct {
 	currentChunkStartTime    uint64
 	currentChunkEndTime      uint64
 	currentChunkMessageCount uint64
+	// haveMessageTimes is set once Statistics.MessageStartTime/MessageEndTime
+	// reflect at least one message.
+	haveMessageTimes bool
 
 	opts *WriterOptions
 
@@ -239,9 +242,10 @@ func (w *Writer) WriteMessage(m *Message) error {
 	if m.LogTime > w.Statistics.MessageEndTime {
 		w.Statistics.MessageEndTime = m.LogTime
 	}
-	if m.LogTime < w.Statistics.MessageStartTime || w.Statistics.MessageCount <= 1 {
+	if m.LogTime < w.Statistics.MessageStartTime || !w.haveMessageTimes {
 		w.Statistics.MessageStartTime = m.LogTime
 	}
+	w.haveMessageTimes = true
 	return nil
 }
 
@@ -512,11 +516,28 @@ func (w *Writer) WriteChunkWithIndexes(c *Chunk, messageIndexes []*MessageIndex)
 
 	w.Statistics.ChunkCount++
 
-	if w.Statistics.MessageStartTime == 0 || c.MessageStartTime < w.Statistics.MessageStartTime {
-		w.Statistics.MessageStartTime = c.MessageStartTime
+	// Fold the chunk's time range into the statistics. A chunk that holds no
+	// message has no time range (its header times are zero), and zero is a valid
+	// log time, so "no time recorded yet" is tracked separately.
+	hasMessages := false
+	for _, messageIndex := range messageIndexes {
+		if !messageIndex.IsEmpty() {
+			hasMessages = true
+			break
+		}
 	}
-	if c.MessageEndTime > w.Statistics.MessageEndTime {
-		w.Statistics.MessageEndTime = c.MessageEndTime
+	if !hasMessages {
+		// without message indexes only the header times can tell
+		hasMessages = c.MessageStartTime != 0 || c.MessageEndTime != 0
+	}
+	if hasMessages {
+		if !w.haveMessageTimes || c.MessageStartTime < w.Statistics.MessageStartTime {
+			w.Statistics.MessageStartTime = c.MessageStartTime
+		}
+		if c.MessageEndTime > w.Statistics.MessageEndTime {
+			w.Statistics.MessageEndTime = c.MessageEndTime
+		}
+		w.haveMessageTimes = true
 	}
 
 	return nil
